@@ -71,6 +71,26 @@ Theorem C11_program_is_reader : forall hash bs0,
   run_flat (p_slp_read hash (List.length bs0)) bs0 = slp_read {| o_skip := false; o_hash := hash |} bs0.
 Proof. exact run_flat_slp_read. Qed.
 
+From Peppi Require Import Gen.HashingSrc Proofs.HashingLayout.
+(* ---- HashingReader (new / read / seek / into_digest), format_hash and the option defaults of read(), regenerated
+   (Gen/HashingSrc.v): one read call feeds the hasher exactly the bytes that call returned; a seek drops the hasher; with no options
+   at all nothing is hashed and no frames are skipped; the text is "xxh3:" + 16 lower-case zero-padded hex digits of digest() *)
+Theorem C11_read_call_from_source : forall len h, hread_tbl len h = Some (hread len h).
+Proof. exact hread_from_source. Qed.
+Theorem C11_option_defaults_from_source :
+  opts_of_src None = {| o_skip := false; o_hash := false |} /\ forall o, opts_of_src (Some o) = o.
+Proof. exact opts_from_source. Qed.
+Theorem C11_skip_path_from_source : forall hash total, p_slp_read_skip hash total = p_slp_read_skip_src hash total.
+Proof. exact p_slp_read_skip_from_source. Qed.
+Theorem C11_hash_text_from_source :
+  hash_prefix = [120; 120; 104; 51; 58]%N /\ hash_hex_width = 16%nat /\ hash_hex_zero_padded = true /\
+  hash_hex_uppercase = false /\ hash_digest_method = "digest"%string /\
+  hr_digest_format_fn = "format_hash"%string /\
+  (forall d, List.length (hash_text d) = 21%nat) /\
+  hash_text 6345550409572837658%N =
+    [120; 120; 104; 51; 58; 53; 56; 48; 102; 101; 99; 55; 97; 51; 50; 101; 99; 54; 57; 49; 97]%N.
+Proof. exact format_hash_from_source. Qed.
+
 Print Assumptions C11_hash_covers_file.
 Print Assumptions C11_digest_any_fragmentation.
 Print Assumptions C11_schedule_independent.
@@ -79,3 +99,7 @@ Print Assumptions C11_digest_any_fragmentation_skip.
 Print Assumptions C11_skip_program_is_reader.
 Print Assumptions C11_wellformed_full.
 Print Assumptions C11_wellformed_skip.
+Print Assumptions C11_read_call_from_source.
+Print Assumptions C11_option_defaults_from_source.
+Print Assumptions C11_skip_path_from_source.
+Print Assumptions C11_hash_text_from_source.
